@@ -73,4 +73,32 @@ theorem setVec_not_compiles : ¬ Compiles vecEnv (modOf tb {} setVec) := by
     simp [hab]
   exact absurd hb (by decide +kernel)
 
+/-- C01-alias-cycle-deref: definitions `T0: allOf[$ref T3]`, `T3: allOf[$ref T0]` (real dump: the cycle is cut with a
+    `Box`, so the sizes are finite, but `T0 -> T3 -> Box<T0> -> T0 -> ..` is an endless auto-deref chain) -/
+def aliasCycle : Space := { nextId := 3, entries := [
+  (0, ⟨.newtype "T0" 1 .none none, [], []⟩),
+  (1, ⟨.newtype "T3" 2 .none none, [], []⟩),
+  (2, ⟨.box 0, [], []⟩)] }
+
+theorem aliasCycle_conjuncts :
+    ((conjuncts exEnv tb {} aliasCycle).filter (fun c => !c.2)).map (·.1) = ["deref_finite"] := by decide +kernel
+
+theorem aliasCycle_not_compiles : ¬ Compiles exEnv (modOf tb {} aliasCycle) := by
+  intro h
+  have h01 : (modOf tb {} aliasCycle).derefNext 0 = some 1 := by decide +kernel
+  have h10 : (modOf tb {} aliasCycle).derefNext 1 = some 0 := by decide +kernel
+  have never : ∀ n, derefEnds (modOf tb {} aliasCycle) n 0 = false ∧ derefEnds (modOf tb {} aliasCycle) n 1 = false := by
+    intro n
+    induction n with
+    | zero => exact ⟨rfl, rfl⟩
+    | succ k ih =>
+      constructor
+      · rw [derefEnds, h01]; exact ih.2
+      · rw [derefEnds, h10]; exact ih.1
+  have hm : ∃ m ∈ (modOf tb {} aliasCycle).items, m.id = 0 := by decide +kernel
+  obtain ⟨m, hmem, hid⟩ := hm
+  obtain ⟨n, hn⟩ := h.derefFinite m hmem
+  rw [hid, (never n).1] at hn
+  exact absurd hn (by decide)
+
 end TypifyModel.C01Findings
